@@ -51,6 +51,7 @@ class Group:
         self._gateways: list[Gateway] = []
         self._autoidcounter = 0
         self._autoidlock = Lock()
+        self._pending_ids: set[str] = set()
         self._gateways_to_join: list[Gateway] = []
         # we use the same execmodel for all of the Gateway objects
         # we spawn on our side.  Probably we should not allow different
@@ -140,28 +141,31 @@ class Group:
             spec = self.defaultspec
         if not isinstance(spec, XSpec):
             spec = XSpec(spec)
-        self.allocate_id(spec)
-        if spec.execmodel is None:
-            spec.execmodel = self.remote_execmodel.backend
-        if spec.via:
-            assert not spec.socket
-            master = self[spec.via]
-            proxy_channel = master.remote_exec(gateway_io)
-            proxy_channel.send(vars(spec))
-            proxy_io_master = gateway_io.ProxyIO(proxy_channel, self.execmodel)
-            gw = gateway_bootstrap.bootstrap(proxy_io_master, spec)
-        elif spec.popen or spec.ssh or spec.vagrant_ssh:
-            io = gateway_io.create_io(spec, execmodel=self.execmodel)
-            gw = gateway_bootstrap.bootstrap(io, spec)
-        elif spec.socket:
-            from . import gateway_socket
+        self.allocate_id(spec, _reserve=True)
+        try:
+            if spec.execmodel is None:
+                spec.execmodel = self.remote_execmodel.backend
+            if spec.via:
+                assert not spec.socket
+                master = self[spec.via]
+                proxy_channel = master.remote_exec(gateway_io)
+                proxy_channel.send(vars(spec))
+                proxy_io_master = gateway_io.ProxyIO(proxy_channel, self.execmodel)
+                gw = gateway_bootstrap.bootstrap(proxy_io_master, spec)
+            elif spec.popen or spec.ssh or spec.vagrant_ssh:
+                io = gateway_io.create_io(spec, execmodel=self.execmodel)
+                gw = gateway_bootstrap.bootstrap(io, spec)
+            elif spec.socket:
+                from . import gateway_socket
 
-            sio = gateway_socket.create_io(spec, self, execmodel=self.execmodel)
-            gw = gateway_bootstrap.bootstrap(sio, spec)
-        else:
-            raise ValueError(f"no gateway type found for {spec._spec!r}")
-        gw.spec = spec
-        self._register(gw)
+                sio = gateway_socket.create_io(spec, self, execmodel=self.execmodel)
+                gw = gateway_bootstrap.bootstrap(sio, spec)
+            else:
+                raise ValueError(f"no gateway type found for {spec._spec!r}")
+            gw.spec = spec
+            self._register(gw)
+        finally:
+            self._pending_ids.discard(spec.id)
         if spec.chdir or spec.nice or spec.env:
             channel = gw.remote_exec(
                 """
@@ -183,18 +187,22 @@ class Group:
             channel.waitclose()
         return gw
 
-    def allocate_id(self, spec: XSpec) -> None:
+    def allocate_id(self, spec: XSpec, _reserve: bool = False) -> None:
         """(re-entrant) allocate id for the given xspec object."""
-        if spec.id is None:
-            with self._autoidlock:
+        with self._autoidlock:
+            if spec.id is None:
                 id = "gw" + str(self._autoidcounter)
                 self._autoidcounter += 1
-                if id in self:
+                if id in self or id in self._pending_ids:
                     raise ValueError(f"already have gateway with id {id!r}")
                 spec.id = id
-        elif spec.id in self:
-            # refuse before any process or connection is created for it
-            raise ValueError(f"already have gateway with id {spec.id!r}")
+            elif spec.id in self or spec.id in self._pending_ids:
+                # refuse before any process or connection is created for it
+                raise ValueError(f"already have gateway with id {spec.id!r}")
+            if _reserve:
+                # makegateway() holds the id until the gateway is registered, so
+                # that a concurrent call cannot pick the same one meanwhile
+                self._pending_ids.add(spec.id)
 
     def _register(self, gateway: Gateway) -> None:
         assert not hasattr(gateway, "_group")
